@@ -113,21 +113,27 @@ pub fn run(ctx: &Ctx) -> Report {
             }
         }
         if ctx.mode == "miri" {
-            // Miri is ~4 orders of magnitude slower: keep the buffer-carrying pairs of the small panels only
-            let keep: Vec<Case> = cases.drain(..).collect();
-            for c in keep {
-                cases.push(c);
-            }
+            // Miri is ~4 orders of magnitude slower: only pairs whose buffers are small, those in
+            // which both symbols lend a buffer first (a retained pointer is re-read by the second)
+            cases.retain(|c| !std::ptr::eq(c.spec, spec));
             let mut pairs = Vec::new();
             for h in histories(spec, &syms, 2) {
                 let ops = flatten(&syms, &h);
-                let small_ops = ops.iter().all(|o| o.img.len() <= 64);
-                if small_ops && ops.iter().filter(|o| o.img != Img::None).count() >= 1 && ops.len() >= 2 {
-                    pairs.push(Case { spec, h });
+                let small_ops = ops.iter().all(|o| o.img.len() <= 64 && !matches!(o.k, K::UpdateFrame | K::UpdateAndDisplay | K::Clear | K::ClearPartial));
+                let first_lends = syms[h[0]].iter().any(|o| o.img != Img::None);
+                if small_ops && first_lends {
+                    let second_lends = syms[h[1]].iter().any(|o| o.img != Img::None);
+                    pairs.push((if second_lends { 0 } else { 1 }, Case { spec, h }));
                 }
             }
-            cases.extend(pairs);
+            pairs.sort_by_key(|p| p.0);
+            let limit = if ctx.tier_thorough { 60 } else { 5 };
+            cases.extend(pairs.into_iter().take(limit).map(|p| p.1));
         }
+    }
+    if ctx.shard.1 > 1 {
+        let (i, n) = ctx.shard;
+        cases = cases.into_iter().enumerate().filter(|(k, _)| k % n == i).map(|(_, c)| c).collect();
     }
     let variant = ctx.variant.clone();
     if twin_b_only || ctx.mode == "miri" {
